@@ -96,7 +96,10 @@ def min_update_contract(fn, assign, acc, x):
         if ex.refs_var(leaf, acc):
             return ex.f_atom(('acc-opaque', leaf.i))
         return None
-    pc = guards_formula(cfg, assign, atomize)
+    assigns = assign if isinstance(assign, (list, tuple)) else [assign]
+    pc = ex.FALSE
+    for a_ in assigns:
+        pc = ex.f_or(pc, guards_formula(cfg, a_, atomize))
     atoms = ex.f_atoms(pc)
     bad = [a for a in atoms if isinstance(a, tuple) and a[0] == 'acc-opaque']
     if bad:
